@@ -727,10 +727,15 @@ impl DhtNetworkManager {
             value: value.clone(),
         };
 
-        // Find closest nodes for replication using network lookup
-        let closest_nodes = self
+        // Find closest nodes for replication using network lookup. The local node takes part
+        // in the distance ranking but stores directly (below); it is never addressed over
+        // the network.
+        let closest_nodes: Vec<DHTNode> = self
             .find_closest_nodes_network(&key, self.config.replication_factor)
-            .await?;
+            .await?
+            .into_iter()
+            .filter(|node| !self.is_local_peer_id(&node.peer_id))
+            .collect();
 
         debug!(
             "find_closest_nodes returned {} nodes for key: {}",
